@@ -1,0 +1,49 @@
+//go:build verif
+
+package graph
+
+import (
+	parser "github.com/shivasurya/code-pathfinder/sourcecode-parser/antlr"
+	sitter "github.com/smacker/go-tree-sitter"
+)
+
+// Exports for the verification harness (build tag verif only).
+
+func VerifBuildGraphFromAST(node *sitter.Node, sourceCode []byte, g *CodeGraph, file string) {
+	buildGraphFromAST(node, sourceCode, g, nil, file)
+}
+
+func VerifGetFiles(directory string) ([]string, error) { return getFiles(directory) }
+
+func VerifGenerateCartesianProduct(g *CodeGraph, selectList []parser.SelectList, conditions []string) [][]*Node {
+	return generateCartesianProduct(g, selectList, conditions)
+}
+
+func VerifCartesianProduct(sets [][]interface{}) [][]interface{} { return cartesianProduct(sets) }
+
+func (n *Node) VerifHasAccess() bool { return n.hasAccess }
+
+func (n *Node) VerifIsJavaSourceFile() bool { return n.isJavaSourceFile }
+
+func VerifGenerateProxyEnv(node *Node, query parser.Query) map[string]interface{} {
+	return generateProxyEnv(node, query)
+}
+
+// VerifBeforeFile is called by a worker before it processes a file;
+// VerifOnMerge when a per-file graph is merged (arrival order).
+var (
+	VerifBeforeFile func(path string)
+	VerifOnMerge    func(local *CodeGraph)
+)
+
+func verifBeforeFile(path string) {
+	if VerifBeforeFile != nil {
+		VerifBeforeFile(path)
+	}
+}
+
+func verifOnMerge(local *CodeGraph) {
+	if VerifOnMerge != nil {
+		VerifOnMerge(local)
+	}
+}
